@@ -11,5 +11,5 @@ func init() {
 
 func c08Gen(tier string, seed uint64, out *bufio.Writer) {
 	p := txProfile{maxTx: 4, maxSteps: 5, failBias: 12, listeners: 5, swallow: true, batch: 6}
-	txGenCommon(tier, seed, out, 180, 2, 400, 8000, p, true)
+	txGenCommon(tier, seed, out, 130, 2, 340, 8000, p, true)
 }
